@@ -163,9 +163,9 @@ func main() {
 		fmt.Println(string(b))
 		return
 	}
-	total := r.Pick(6400, 400000)
+	total := r.Pick(6400, 240000)
 	if r.Prop == "C01" {
-		total = r.Pick(3200, 160000) // every history also goes through porcupine
+		total = r.Pick(3200, 96000) // every history also goes through porcupine
 	}
 	for _, n := range r.MyCases(total) {
 		opt := caseOptions(r, n)
